@@ -96,6 +96,11 @@ def make_cmd_seeds(d):
 def run(tier, seed, shard, nshards):
     s = Stats()
     budget = int(os.environ.get("NV_C17_SECONDS", "40" if tier == "quick" else "600"))
+    only = os.environ.get("NV_C17_PART", "")             # development aid: run one part only
+    if only == "sessions":
+        import c17s
+        c17s.part(s, tier, seed, shard)
+        return s
     if shard < 10 or nshards < 16:
         fuzzdrv.campaign(s, PROP, "fuzz_util_file", tier, seed, shard, budget, make_file_seeds, FILE_DICT,
                          "/verif/corpus/C17/file_*", max_len=16384,
